@@ -49,7 +49,8 @@ func (wl *WhopLoc) Continue(s *Scope, args List, depth int) Object {
 			continue
 		}
 		ws := s.NewScope()
-		ws.Let("~whopper-location~", &WhopLoc{Method: wl.Method, Current: wl.Current + 1})
+		// Current is the index of the wrapper being run, Continue moves on from there.
+		ws.Let("~whopper-location~", &WhopLoc{Method: wl.Method, Current: wl.Current})
 		if lam, ok := wrap.(*Lambda); ok {
 			lam.Closure = ws
 		}
@@ -59,8 +60,8 @@ func (wl *WhopLoc) Continue(s *Scope, args List, depth int) Object {
 }
 
 func (wl *WhopLoc) HasNext() bool {
-	for wl.Current++; wl.Current < len(wl.Method.Combinations); wl.Current++ {
-		if wl.Method.Combinations[wl.Current].Wrap != nil {
+	for i := wl.Current + 1; i < len(wl.Method.Combinations); i++ {
+		if wl.Method.Combinations[i].Wrap != nil {
 			return true
 		}
 	}
